@@ -355,6 +355,7 @@ type Enc struct {
 	retGuards     []Term
 	boxDecls      map[string]string // box function name -> argument sort
 	clauseSeen    map[string]bool   // iteration / exit clauses: evaluated on at least one path?
+	defaultExterns map[string]bool  // library functions used through the default assumed contract
 }
 
 type modRef struct {
@@ -375,7 +376,7 @@ func newEnc(p *Program, fn *ssa.Function, fc *FuncC) *Enc {
 		edgeGuard: map[[2]int]Term{}, blockG: map[*ssa.BasicBlock]Term{}, oblCtr: map[string]int{},
 		loops: map[*ssa.BasicBlock]*loopInfo{}, backEdge: map[[2]int]bool{}, debugVals: map[string][]ssa.Value{},
 		params: map[string]CVal{}, mulSeen: map[string]bool{}, okCur: "true", curGuard: tTrue, checked: map[string]*ssa.BasicBlock{},
-		known: map[string]string{}, defs: map[string]string{}, expanded: map[string]string{}, scratchLocals: map[*ssa.Alloc]Term{}, specVals: map[string]CVal{}, boxDecls: map[string]string{}, clauseSeen: map[string]bool{}}
+		known: map[string]string{}, defs: map[string]string{}, expanded: map[string]string{}, scratchLocals: map[*ssa.Alloc]Term{}, specVals: map[string]CVal{}, boxDecls: map[string]string{}, clauseSeen: map[string]bool{}, defaultExterns: map[string]bool{}}
 	return e
 }
 
